@@ -1,4 +1,5 @@
 INIT TraceInit
 NEXT TraceNext
+INVARIANT Conforms
 POSTCONDITION Accepted
 CHECK_DEADLOCK FALSE
